@@ -1,25 +1,233 @@
-//! C13 — not built yet (stub).
+//! C13 — aggregations and suggestions do not depend on paging.
+//! Finder (implementation only): one request with aggregations and suggestions is run in many
+//! variants (every page of a cursor walk, limits, sort plans, return_hits off, bm25/wand/bmw,
+//! explain/profile, rescore, candidate_size); `aggregations` and `suggest` of every variant must
+//! equal those of the base request.
+//! Correspondence: the model's collected-document aggregations (`SL.Post.search`: terms count
+//! over `g`, value count of `n`, taken over the documents that pass the cursor test) vs the
+//! implementation, for every variant.  The spec-level theorem is short; this differential
+//! carries the weight.
+use super::c18::common::*;
+use super::c18::{full_req, ranking_req};
 use crate::proto::Driver;
 use crate::rng::Rng;
 use crate::summary::Summary;
 use crate::{Prop, Tier};
 use serde_json::{json, Value};
 
-pub struct Stub;
-pub static P: Stub = Stub;
+pub struct C13;
+pub static P: C13 = C13;
 
-impl Prop for Stub {
+fn gen_aggs(rng: &mut Rng) -> Value {
+  let mut a = std_aggs();
+  if rng.chance(1, 2) {
+    a["st"] = json!({"type": "stats", "field": "x"});
+  }
+  if rng.chance(1, 2) {
+    a["h"] = json!({"type": "histogram", "field": "n", "interval": 2.0});
+  }
+  if rng.chance(1, 3) {
+    a["tk"] = json!({"type": "terms", "field": "k", "size": 3, "aggs": {"m": {"type": "stats", "field": "n"}}});
+  }
+  if rng.chance(1, 3) {
+    a["f"] = json!({"type": "filter", "filter": {"KeywordIn": {"field": "k", "values": ["a", "b"]}}, "aggs": {"c": {"type": "value_count", "field": "x"}}});
+  }
+  if rng.chance(1, 4) {
+    a["card"] = json!({"type": "cardinality", "field": "k"});
+  }
+  if rng.chance(1, 4) {
+    a["top"] = json!({"type": "top_hits", "size": 2, "sort": [{"field": "n", "order": "desc"}]});
+  }
+  a
+}
+
+/// the canonical aggregation JSON with the `score` of every top_hits hit removed
+fn strip_top_hits_scores(v: &Value) -> Value {
+  match v {
+    Value::Object(m) => {
+      let is_top = m.get("type") == Some(&json!("top_hits"));
+      Value::Object(
+        m.iter()
+          .map(|(k, x)| {
+            if is_top && k == "hits" {
+              (k.clone(), Value::Array(x.as_array().cloned().unwrap_or_default().iter().map(|h| {
+                let mut h = h.clone();
+                if let Some(o) = h.as_object_mut() {
+                  o.remove("score");
+                }
+                h
+              }).collect()))
+            } else {
+              (k.clone(), strip_top_hits_scores(x))
+            }
+          })
+          .collect(),
+      )
+    }
+    Value::Array(a) => Value::Array(a.iter().map(strip_top_hits_scores).collect()),
+    other => other.clone(),
+  }
+}
+
+impl Prop for C13 {
   fn id(&self) -> &'static str {
     "C13"
   }
   fn rule(&self) -> &'static str {
-    "stub"
+    "case = random corpus (6..40 docs, 1..3 segments, deletes) + query + optional filter + aggregation tree (terms/value_count always; stats, histogram, nested terms+stats, filter, cardinality, top_hits at random) + completion suggestion (50%); variants per case: full cursor walk with page size 1..4 (<= 8 pages), limits 1/3/50, 3 sort plans, return_hits=false, bm25/wand/bmw, explain, profile, rescore, candidate_size; each variant's aggregations+suggest are compared with the base request's; non-trivial = at least 2 matching documents and at least one variant with a cursor (page >= 2) was run; distinct = distinct case JSON"
   }
-  fn count(&self, _tier: Tier) -> usize {
-    0
+  fn count(&self, tier: Tier) -> usize {
+    tier.pick(150, 5000)
   }
-  fn gen(&self, _rng: &mut Rng, _tier: Tier, _i: usize) -> Value {
-    json!(null)
+  fn gen(&self, rng: &mut Rng, _tier: Tier, _i: usize) -> Value {
+    let corpus = gen_corpus(rng, 6, 40);
+    let mut req = json!({"limit": 5, "sort": [], "execution": "wand", "aggs": gen_aggs(rng)});
+    if rng.chance(1, 2) {
+      req["suggest"] = json!({"s": {"type": "completion", "field": "body", "prefix": *rng.pick(&["a", "be", "e", "ga", "z", "th"]), "size": 1 + rng.below(4)}});
+    }
+    let variants = json!({
+      "page": 1 + rng.below(4),
+      "walk_sort": gen_sort(rng),
+      "sorts": [gen_sort(rng), gen_sort(rng), gen_sort(rng)],
+      "rescore": {"window_size": rng.below(12), "score_mode": *rng.pick(&MODES), "query": gen_rescore_query(rng)},
+      "candidate_size": 6 + rng.below(20),
+    });
+    json!({"corpus": corpus, "query": gen_query(rng), "filter": gen_filter(rng), "req": req, "variants": variants})
   }
-  fn run_case(&self, _drv: &mut Driver, _case: &Value, _s: &mut Summary) {}
+
+  fn run_case(&self, drv: &mut Driver, case: &Value, s: &mut Summary) {
+    let built = match build(&case["corpus"]) {
+      Ok(b) => b,
+      Err(e) => {
+        s.disagree("harness.build", case, json!(e), json!(null));
+        return;
+      }
+    };
+    let lay = match layout(&built.reader, &case["corpus"]) {
+      Ok(l) => l,
+      Err(e) => {
+        s.disagree("harness.layout", case, json!(e), json!(null));
+        return;
+      }
+    };
+    let req = full_req(case);
+    let base = match run(&built.reader, &req) {
+      Ok(r) => r,
+      Err(e) => {
+        s.case(case, false);
+        s.count(&format!("base_error:{}", e.chars().take(40).collect::<String>()));
+        return;
+      }
+    };
+    let want = canon_aggs(&base);
+    let vs = &case["variants"];
+    // (name, request, cursor for the model)
+    let mut variants: Vec<(String, Value, Option<(String, f32, usize)>)> = Vec::new();
+    let with = |k: &str, v: Value| {
+      let mut r = req.clone();
+      r[k] = v;
+      r
+    };
+    for l in [1, 3, 50] {
+      variants.push((format!("limit"), with("limit", json!(l)), None));
+    }
+    for so in vs["sorts"].as_array().cloned().unwrap_or_default() {
+      variants.push(("sort".into(), with("sort", so), None));
+    }
+    variants.push(("return_hits".into(), with("return_hits", json!(false)), None));
+    for e in ["bm25", "bmw"] {
+      variants.push(("execution".into(), with("execution", json!(e)), None));
+    }
+    variants.push(("explain".into(), with("explain", json!(true)), None));
+    variants.push(("profile".into(), with("profile", json!(true)), None));
+    variants.push(("rescore".into(), with("rescore", vs["rescore"].clone()), None));
+    variants.push(("candidate_size".into(), with("candidate_size", vs["candidate_size"].clone()), None));
+    // cursor walk
+    let mut walk = with("limit", vs["page"].clone());
+    walk["sort"] = vs["walk_sort"].clone();
+    let mut pages = 0;
+    let mut returned = 0usize;
+    let mut cur: Option<(String, f32, usize)> = None;
+    let mut cursor_pages = 0;
+    loop {
+      let mut r = walk.clone();
+      let res = match run(&built.reader, &r) {
+        Ok(x) => x,
+        Err(e) => {
+          s.count(&format!("walk_error:{}", e.chars().take(40).collect::<String>()));
+          break;
+        }
+      };
+      if pages > 0 {
+        cursor_pages += 1;
+      }
+      variants.push((if pages == 0 { "walk-first-page".into() } else { "cursor-page".into() }, r.take(), cur.clone()));
+      pages += 1;
+      returned += res.hits.len();
+      match (res.next_cursor.clone(), res.hits.last()) {
+        (Some(c), Some(last)) if pages < 8 => {
+          walk["cursor"] = json!(c);
+          cur = Some((last.doc_id.clone(), last.score, returned));
+        }
+        _ => break,
+      }
+    }
+    let nontrivial = base.total_hits_estimate >= 2 && cursor_pages > 0;
+    s.case(case, nontrivial);
+    s.add("variants", variants.len() as u64);
+    s.add("cursor_pages", cursor_pages as u64);
+    s.count(&format!("aggs:{}", req["aggs"].as_object().map(|m| m.len()).unwrap_or(0)));
+    if !req["suggest"].is_null() {
+      s.count("with_suggest");
+    }
+
+    for (name, r, cursor) in variants {
+      let v = match run(&built.reader, &r) {
+        Ok(v) => v,
+        Err(e) => {
+          s.fail(&format!("aggs.variant-error.{name}"), "variant of the request fails although the base request succeeds", case, json!({"variant": name, "request": r, "error": e}));
+          continue;
+        }
+      };
+      // ---------------- finder ----------------
+      let got = canon_aggs(&v);
+      if !value_close(&got, &want) {
+        let obs = json!({"variant": name, "limit": r["limit"], "sort": r["sort"], "cursor": r["cursor"], "base": want, "variant_result": got});
+        let field_sort = !plan_json(&r["sort"]).as_array().map(|a| a.iter().any(|p| p["f"] == "score")).unwrap_or(false);
+        if name != "cursor-page" && field_sort && !has_hook(&r["query"]) && !r["explain"].as_bool().unwrap_or(false) && value_close(&strip_top_hits_scores(&got), &strip_top_hits_scores(&want)) {
+          s.fail("aggs.top-hits-score-under-field-sort", "a top_hits aggregation reports score 0 for its hits when the request sort does not use _score (scores are not computed then), the real score otherwise", case, obs);
+        } else if name == "cursor-page" {
+          s.fail("aggs.cursor-page", "on page >= 2 of a cursor walk aggregations only count the documents after the cursor (the cursor test sits in the accept step that feeds the collectors)", case, obs);
+        } else {
+          s.fail(&format!("aggs.variant.{name}"), "aggregations/suggestions differ from the base request's", case, obs);
+        }
+      }
+      // ---------------- correspondence ----------------
+      let mut rk = ranking_req(&json!({"query": case["query"], "filter": case["filter"], "req": {"execution": r["execution"], "explain": r["explain"]}}), &r["sort"]);
+      rk["limit"] = json!(ALL);
+      let ranking = match run(&built.reader, &rk) {
+        Ok(x) => x,
+        Err(_) => continue,
+      };
+      let scores = match raw_scores(&built.reader, &rk, &ranking) {
+        Ok(x) => x,
+        Err(_) => continue,
+      };
+      let cur = cursor.as_ref().map(|(id, sc, n)| (id.as_str(), *sc, *n));
+      let mut mr = model_req(&r, &lay, model_hits(&lay, &scores, None), cur, false);
+      // hits themselves are C18–C20's business; here only what was collected
+      mr["return_hits"] = json!(false);
+      let m = drv.call("C13", mr);
+      let mut d: Option<String> = None;
+      if m["ok"] != json!(true) {
+        d = Some(format!("model error {}", m["error"]));
+      } else {
+        let probe = searchlite_core::api::SearchResult { hits: Vec::new(), total_hits_estimate: v.total_hits_estimate, total_groups: None, next_cursor: None, aggregations: v.aggregations.clone(), suggest: Default::default(), profile: if r["profile"].as_bool().unwrap_or(false) { v.profile.clone() } else { None } };
+        d = d.or(compare(&m, &probe, &lay, total_is_exact(&r, &case["query"])));
+      }
+      if let Some(d) = d {
+        s.disagree("post.aggs", case, json!({"variant": name, "request": r, "diff": d}), m);
+      }
+    }
+  }
 }
